@@ -38,10 +38,11 @@ typedef enum {
 // immediately before the operation.
 #define __atomic_fetch_op(obj, val, op) ({                       \
   typeof(obj) __p = (obj);                                       \
+  typeof(val) __val = (val);                                     \
   typeof(*__p) __old = *__p;                                     \
   typeof(*__p) __new;                                            \
   do {                                                           \
-    __new = __old op (val);                                      \
+    __new = __old op __val;                                      \
   } while (!__builtin_compare_and_swap(__p, &__old, __new));     \
   __old;                                                         \
 })
